@@ -268,13 +268,23 @@ def rand_graph_dict(rng, vs, ls, pkey=0.8, pedge=0.5, hidden=True):
     return gd
 
 
+def rand_starts(rng, vs):
+    """usually one start vertex, sometimes none or several (possibly repeated)"""
+    r = rng.random()
+    if r < 0.7:
+        return [vs[0]]
+    if r < 0.78:
+        return []
+    return [rng.choice(vs) for _ in range(rng.choice([2, 2, 3]))]
+
+
 def rand_init(rng, vs=None, ls=None):
     vs = vs or VS[:rng.choice([1, 2, 3, 3, 4])]
     ls = ls or LS[:rng.choice([1, 2, 2, 3])]
     r = rng.random()
     if r < 0.45:
         gd = rand_graph_dict(rng, vs, ls)
-        return {"route": "graph", "d": gd, "starts": [vs[0]]}
+        return {"route": "graph", "d": gd, "starts": rand_starts(rng, vs)}
     if r < 0.75:
         gd = rand_graph_dict(rng, vs, ls, pkey=1.0, hidden=False)
         od = []
@@ -284,9 +294,9 @@ def rand_init(rng, vs=None, ls=None):
                 row.setdefault(w, []).append(l)
             od.append([v, [[w, lab] for w, lab in row.items()]])
         rng.shuffle(od)
-        return {"route": "out", "d": od, "starts": [vs[0]]}
+        return {"route": "out", "d": od, "starts": rand_starts(rng, vs)}
     if r < 0.82:
-        return {"route": "empty", "starts": [vs[0]]}
+        return {"route": "empty", "starts": rand_starts(rng, vs)}
     if r < 0.9:
         return {"route": "free", "gens": rng.sample(["a", "b", "c"], rng.choice([1, 2, 2, 3]))}
     n = rng.choice([1, 2, 3, 4])
@@ -448,14 +458,67 @@ def time_limit(sec):
     left = signal.setitimer(signal.ITIMER_REAL, 0)[0]      # the runner's deadline (alarm and itimer share one timer)
     t0 = time.time()
 
+    ctx = {"fired": False}
+
     def h(signum, frame):
+        ctx["fired"] = True
+        if os.environ.get("FSA_DEBUG_TL"):
+            import sys as _s
+            print("TL fired", sec, file=_s.stderr, flush=True)
         raise CallTimeout("call did not return within %s s" % sec)
     signal.signal(signal.SIGALRM, h)
-    signal.setitimer(signal.ITIMER_REAL, sec)
+    # fires at `sec` and then again every half second until the block is left: a handler somewhere below that
+    # swallows the exception cannot neutralise the limit
+    signal.setitimer(signal.ITIMER_REAL, sec, 0.5)
     try:
-        yield
+        yield ctx
     finally:
         signal.setitimer(signal.ITIMER_REAL, 0)
         signal.signal(signal.SIGALRM, old)
         if left:
-            signal.setitimer(signal.ITIMER_REAL, max(0.01, left - (time.time() - t0)))
+            signal.setitimer(signal.ITIMER_REAL, max(0.01, left - (time.time() - t0)), 0.5)
+
+
+def canon_dict(d):
+    """order-free form of a caller dictionary in JSON form (inner values: target or label list)"""
+    return sorted(((repr(v), sorted((repr(a), repr(sorted(b)) if isinstance(b, list) else repr(b)) for a, b in row)) for v, row in d))
+
+
+_TIMEOUTS = {}
+
+
+def bounded(run, sec=20):
+    """a `run` function whose every evaluation is bounded in time: an implementation that stops terminating on a
+    generated input (a leaked cache, a shared table growing across automata) is reported as a failing input of that
+    clause instead of stalling the whole check; after three such inputs the remaining ones of the clause are not run"""
+    name = getattr(run, "__name__", "run")
+
+    def wrapped(inp):
+        if _TIMEOUTS.get(name, 0) >= 3:
+            raise CallTimeout("not run: three earlier inputs of this clause did not return within %s s" % sec)
+        try:
+            with time_limit(sec) as ctx:
+                r = run(inp)
+            if ctx["fired"]:        # the limit was hit but the exception was absorbed further down
+                raise CallTimeout("evaluation exceeded %s s" % sec)
+            return r
+        except CallTimeout:
+            _TIMEOUTS[name] = _TIMEOUTS.get(name, 0) + 1
+            raise
+    wrapped.__name__ = name
+    return wrapped
+
+
+class TooMany(Exception):
+    pass
+
+
+def capped(it, cap=100000):
+    """an enumeration of the implementation, cut off far above anything the generated automata can produce (an
+    implementation whose enumerations explode — e.g. tables leaking between automata — must not exhaust memory)"""
+    n = 0
+    for x in it:
+        n += 1
+        if n > cap:
+            raise TooMany("more than %d items enumerated" % cap)
+        yield x
